@@ -278,6 +278,10 @@ func renderExport(rd io.Reader, err error) string {
 		sb.WriteString("out=<nil>")
 	} else {
 		b, rerr := io.ReadAll(rd)
+		var one [8]byte
+		if n, _ := rd.Read(one[:]); n > 0 { // one more Read after the end (legal)
+			b = append(b, one[:n]...)
+		}
 		sb.WriteString("out=")
 		sb.WriteString(strconv.Quote(string(b)))
 		if rerr != nil {
@@ -324,6 +328,16 @@ func (c *taskCtx) execOp(op *Op) string {
 				c.nFail++
 			}
 			return renderDecode(s)
+		case "dsc":
+			// decode and score, rendered tersely (volume runs)
+			s := doDecode(op.Kind, op.NilRecv, op.Vec)
+			c.objs[op.Dst] = s
+			if s.err != nil || isNilObj(s.res) {
+				c.nFail++
+				return "dsc:" + errSentinels(s.err)
+			}
+			c.nOK++
+			return "dsc:" + fbits(asMetrics(s.res).Score())
 		case "obs":
 			p, _, ok := c.operand(op)
 			if !ok {
@@ -467,6 +481,8 @@ func (c *taskCtx) opKey(op *Op) (string, bool) {
 	switch op.K {
 	case "dec":
 		return fmt.Sprintf("dec|%d|%v|%s", op.Kind, op.NilRecv, strconv.Quote(op.Vec)), true
+	case "dsc":
+		return fmt.Sprintf("dsc|%d|%v|%s", op.Kind, op.NilRecv, op.Vec), true
 	case "obs", "snap":
 		_, origin, ok := c.operand(op)
 		if !ok {
